@@ -27,7 +27,7 @@ var (
 	thorough = flag.Bool("thorough", false, "thorough tier")
 	harness  = flag.String("harness", "/verif/harness", "path of the verifharness module")
 	plugins  = flag.String("plugins", "curry,uncurry,flip,apply,tuple", "comma separated plugin list")
-	cfg      = flag.String("cfg", "0000000000000", "model variant flags written into every op line: unnamedFixed shadowFixed crossFixed voidFixed prefixFixed universeFixed resultsFixed zeroFixed lhsFixed errTypeFixed errRecvFixed typedNilFixed localsFixed")
+	cfg      = flag.String("cfg", "0000000000000000", "model variant flags written into every op line: unnamedFixed shadowFixed crossFixed voidFixed prefixFixed universeFixed resultsFixed resultOuterFixed zeroFixed lhsFixed errTypeFixed errRecvFixed typedNilFixed localsFixed")
 )
 
 func must(err error) {
@@ -267,6 +267,16 @@ func (g *gen) genC15() {
 		inner := g.params(naming([]string{"named", "blankall"}[i%2], 1+i%2))
 		g.add(&funcs.Class{Prop: "C15", Kind: "uncurry", Tag: "resultnames", Outer: g.params([]string{[]string{"z", "_"}[i%2]}), Inner: inner, Rs: rs, Rn: rn})
 	}
+	// uncurry: an inner RESULT that bears the name of the outer parameter (two signatures merged into one)
+	for i, c := range []struct {
+		outer string
+		inner []string
+		rn    []string
+	}{{"a", []string{"b"}, []string{"a"}}, {"z", []string{"b", "c"}, []string{"r", "z"}}, {"x", []string{"_"}, []string{"x", "y"}}} {
+		g.add(&funcs.Class{Prop: "C15", Kind: "uncurry", Tag: "resultparam", Outer: g.params([]string{c.outer}), Inner: g.params(c.inner),
+			Rs: g.types(len(c.rn), false), Rn: c.rn})
+		_ = i
+	}
 	// parameter names from the generator's OWN vocabulary (the identifiers its templates use for parameters
 	// and locals) at every position, all parameters of one type: a capture would compile silently
 	for i := range vocab {
@@ -447,6 +457,10 @@ func (g *gen) genC16() {
 	for i := 0; i < 6; i++ {
 		g.add(&funcs.Class{Prop: "C16", Kind: "fmape", Tag: fmt.Sprintf("results:%d", 2+i%2), In: g.anyType(), Outs: g.types(2+i%2, i < 2)})
 	}
+	// ---- fmap's multi-result form next to a user's deriveTuple of assignable-but-not-identical types
+	g.add(&funcs.Class{Prop: "C16", Kind: "fmape", Tag: "tupleclash", In: g.okType(), Outs: []int{9, 1}, TupleClash: []int{13, 1}})
+	g.add(&funcs.Class{Prop: "C16", Kind: "fmape", Tag: "tupleclash", In: g.okType(), Outs: []int{13, 0}, TupleClash: []int{9, 0}})
+	g.add(&funcs.Class{Prop: "C16", Kind: "fmape", Tag: "tupleclash", In: g.okType(), Outs: []int{0, 9, 1}, TupleClash: []int{0, 13, 1}})
 	// ---- join, error form
 	g.add(&funcs.Class{Prop: "C16", Kind: "joine", Tag: "results:0"})
 	for _, t := range funcs.Types {
@@ -546,8 +560,8 @@ func (g *gen) genC16() {
 
 func main() {
 	flag.Parse()
-	if len(*cfg) != 13 || strings.Trim(*cfg, "01") != "" {
-		must(fmt.Errorf("-cfg wants thirteen binary digits"))
+	if len(*cfg) != 16 || strings.Trim(*cfg, "01") != "" {
+		must(fmt.Errorf("-cfg wants sixteen binary digits"))
 	}
 	g := &gen{rng: rand.New(rand.NewSource(*seed)), stats: map[string]int{}}
 	want := map[string]bool{}
